@@ -1,6 +1,7 @@
 import TaskctlVerif.Proofs.SchedFair
 import TaskctlVerif.Props.C02
 import TaskctlVerif.Model.SchedMulti
+import TaskctlVerif.Props.C01
 /-!
 # C03 — every pipeline run terminates and runs each eligible stage exactly once
 
@@ -326,6 +327,40 @@ example : isDone 4 (rounds exCfg2 exOk 4 1 init) = false ∧ isDone 4 (rounds ex
     isDone 4 (rounds exCfg2 exOk 4 13 init) = true ∧ (rounds exCfg2 exOk 4 13 init).cancelled = false ∧
     (rounds exCfg2 exOk 4 13 init).status 3 = .canceled ∧ (rounds exCfg2 exOk 4 13 init).status 2 = .done := by
   decide
+
+/-! ## Every pipeline of a tree of nested pipelines (`Model/Tree.lean`) -/
+
+/-- whatever holds initially and is preserved by every scheduler step holds, at every moment, in
+every pipeline of a tree of nested pipelines: a tree step is a scheduler step of one pipeline -/
+theorem tree_transfer (T : TCfg) (P : Cfg → St → Prop) (h0 : ∀ c, P c init)
+    (hstep : ∀ c σ a, P c σ → P c (step c σ a)) (xs : List TAct) (p : Path) :
+    P (T.cfg p) (trun T tinit xs p) := by
+  suffices ∀ σ : TSt, (∀ p, P (T.cfg p) (σ p)) → ∀ p, P (T.cfg p) (trun T σ xs p) from
+    this tinit (fun p => h0 _) p
+  induction xs with
+  | nil => intro σ h p; exact h p
+  | cons x xs ih =>
+    intro σ h p
+    refine ih (tstep T σ x) (fun q => ?_) p
+    rcases tstep_cases T σ x with he | ⟨_, a, he⟩ <;> rw [he]
+    · exact h q
+    · unfold tset
+      split
+      · rename_i hq; subst hq; exact hstep _ _ a (h _)
+      · exact h q
+
+/-- **C03 at every depth of nesting**: under every interleaving of all the schedulers of a tree of
+nested pipelines, no stage of any pipeline is started twice -/
+theorem C03_once_tree (T : TCfg) (xs : List TAct) (p : Path) (s : Nat) :
+    (trun T tinit xs p).starts s ≤ 1 ∧
+      ((trun T tinit xs p).starts s = 1 ↔ (trun T tinit xs p).g s ≠ .none) := by
+  have h := tree_transfer T (fun c σ => Inv c σ ∧ OnceInv σ)
+    (fun c => ⟨inv_init c, by intro s; simp [init]⟩)
+    (fun c σ a h => ⟨inv_step c σ a h.1, once_step c σ a h.1 h.2⟩) xs p
+  have := h.2 s
+  constructor
+  · rw [this]; split <;> omega
+  · rw [this]; split <;> simp_all
 
 end Sched
 
